@@ -2497,6 +2497,24 @@ class Emitter:
             raise EmitError("while/loop #%d in %s: no fuel expression in the vocabulary" % (i, self.cur_fn))
         return fuels[i]
 
+    def has_break(self, node):
+        """any `break` below `node` (also inside nested loops: a labelled one may leave the outer loop)"""
+        found = []
+
+        def walk(x):
+            if isinstance(x, N):
+                if x.kind == "break":
+                    found.append(1)
+                if x.kind == "closure":
+                    return
+                for v in x.__dict__.values():
+                    walk(v)
+            elif isinstance(x, (list, tuple)):
+                for y in x:
+                    walk(y)
+        walk(node)
+        return bool(found)
+
     def has_return(self, node):
         found = []
 
@@ -2832,13 +2850,17 @@ class Emitter:
         r = self.fresh("lr")
         s2 = self.fresh("st")
         v = self.fresh("rv")
+        # a `loop { .. }` that is only left through `return` has type `!`: nothing follows it (the body never answers
+        # LBreak, so the `inl` arm is dead; `None` there, not the continuation, which would be typed `()`)
+        never = cond is None and not self.has_break(bodyblk)
+        after = (lambda: "None") if never else (lambda: self.unpack_state(st, s2, env, lambda env4: k("tt", UNIT, env4)))
         if rs:
             s3 = self.fresh("st")
             return "%s <- while_fuel %s %s %s ;;\nmatch %s with\n| inl %s =>\n%s\n| inr (%s, %s) =>\n%s\nend" % (
-                r, fuel, fterm, init, r, s2, ind(self.unpack_state(st, s2, env, lambda env4: k("tt", UNIT, env4)), 4),
+                r, fuel, fterm, init, r, s2, ind(after(), 4),
                 s3, v, ind(self.unpack_state(st, s3, env, lambda env4: self.ctl.ret(env4, v, UNKNOWN)), 4))
         return "%s <- while_fuel %s %s %s ;;\nmatch %s with\n| inl %s =>\n%s\n| inr %s =>\n%s\nend" % (
-            r, fuel, fterm, init, r, s2, ind(self.unpack_state(st, s2, env, lambda env4: k("tt", UNIT, env4)), 4),
+            r, fuel, fterm, init, r, s2, ind(after(), 4),
             v, ind(self.ctl.ret(env, v, UNKNOWN), 4))
 
     def try_total(self, x):
